@@ -21,17 +21,20 @@ Definition is_blank (s:str) := forallb is_sp s.
 Fixpoint all_in (cs:list N) (s:str) := forallb (fun x => existsb (N.eqb x) cs) s.
 Fixpoint count (c:N) (s:str) : nat := match s with [] => 0 | x::r => (if N.eqb x c then 1 else 0) + count c r end.
 
+(* where a leaf comes from in the source: `off` = characters of the line consumed by containers, `ind` = spaces after that *)
+Inductive hsrc := HAtx (off ind : nat) (body : str) | HSetext (pos : list (nat*nat)) (uoff uind : nat) (ubody : str).
+Inductive csrc := CInd | CFence (ch : N) (n off ind : nat) (closed : bool).
 Inductive block :=
-| BPara (ls : list str)
-| BHead (lvl:nat) (content:str)
-| BBreak
-| BCode (info:str) (ls:list str).
+| BPara (ls : list str) (pos : list (nat*nat))
+| BHead (lvl:nat) (content:str) (h : hsrc)
+| BBreak (off ind : nat) (body : str)
+| BCode (info:str) (ls:list str) (c : csrc).
 
 Inductive open :=
 | ONone
-| OPara (rls : list str)
+| OPara (rls : list str) (rpos : list (nat*nat))
 | OICode (rls : list str) (pend : list str)
-| OFence (c:N) (n:nat) (ind:nat) (info:str) (rls:list str).
+| OFence (c:N) (n:nat) (ind:nat) (info:str) (rls:list str) (off:nat) (closed:bool).
 
 
 (* ATX: rest has no leading spaces *)
@@ -101,9 +104,9 @@ Fixpoint ewb (n:node) : bool :=
 Definition leaf_block (o:open) : option block :=
   match o with
   | ONone => None
-  | OPara rls => Some (BPara (rev rls))
-  | OICode rls _ => Some (BCode [] (rev rls))
-  | OFence _ _ _ info rls => Some (BCode info (rev rls))
+  | OPara rls rpos => Some (BPara (rev rls) (rev rpos))
+  | OICode rls _ => Some (BCode [] (rev rls) CInd)
+  | OFence c n ind info rls off cl => Some (BCode info (rev rls) (CFence c n off ind cl))
   end.
 
 Definition push_child (n:node) (fs:list frame) : list frame :=
@@ -188,7 +191,7 @@ Definition list_marker (rest:str) : option (bool * N * N * nat) :=
        else None
   | [] => None end.
 
-Definition cur_is_para (s:st) := match cur s with OPara _ => true | _ => false end.
+Definition cur_is_para (s:st) := match cur s with OPara _ _ => true | _ => false end.
 Definition top_kind (fs:list frame) := match fs with f :: _ => fk f | [] => KDoc end.
 Definition is_list_kind (k:nk) := match k with KList _ _ _ => true | _ => false end.
 (* ensure innermost frame can hold a non-item block: close an open list frame *)
@@ -203,8 +206,9 @@ Definition add_leaf_node (ln:nat) (b:block) (sl:nat) (s:st) : st :=
   {| fs := push_child (NLeaf b sl ln false) (leave_list (ln-1) (fs s)); cur := ONone; csl := 0; cel := 0; cllb := false |}.
 
 (* phase 2+3 ; fuel bounds the number of containers opened on one line *)
-Fixpoint starts_loop (fuel:nat) (ln:nat) (s:st) (um:nat) (closed_:bool) (cont_para:bool) (cont_list:bool) (allclosed:bool) (rest:str) : st :=
+Fixpoint starts_loop (full:nat) (fuel:nat) (ln:nat) (s:st) (um:nat) (closed_:bool) (cont_para:bool) (cont_list:bool) (allclosed:bool) (rest:str) : st :=
   let ind := lead sp rest in
+  let off := full - length rest in
   let body := dropn ind rest in
   let blank := is_blank rest in
   let indented := 4 <=? ind in
@@ -213,16 +217,16 @@ Fixpoint starts_loop (fuel:nat) (ln:nat) (s:st) (um:nat) (closed_:bool) (cont_pa
   let finish_default :=
      (* phase 3 *)
      if (negb allclosed) && (negb blank) && tip_para then
-       match cur s with OPara rls => {| fs := fs s; cur := OPara (body :: rls); csl := csl s; cel := ln; cllb := false |} | _ => s end
+       match cur s with OPara rls rpos => {| fs := fs s; cur := OPara (body :: rls) ((off, ind) :: rpos); csl := csl s; cel := ln; cllb := false |} | _ => s end
      else
        if cont_para && negb closed_ then
-         match cur s with OPara rls => {| fs := fs s; cur := OPara (body :: rls); csl := csl s; cel := ln; cllb := false |} | _ => s end
+         match cur s with OPara rls rpos => {| fs := fs s; cur := OPara (body :: rls) ((off, ind) :: rpos); csl := csl s; cel := ln; cllb := false |} | _ => s end
        else
          let s1 := if closed_ then s else
                      (* close unmatched only: leaf closes unless it is matched (allclosed) *)
                      (if allclosed then s else do_closes ln um s) in
          if blank then s1
-         else {| fs := leave_list (ln-1) (fs s1); cur := OPara [body]; csl := ln; cel := ln; cllb := false |}
+         else {| fs := leave_list (ln-1) (fs s1); cur := OPara [body] [(off, ind)]; csl := ln; cel := ln; cllb := false |}
   in
   match fuel with
   | 0 => finish_default
@@ -232,19 +236,19 @@ Fixpoint starts_loop (fuel:nat) (ln:nat) (s:st) (um:nat) (closed_:bool) (cont_pa
       let r2 := match r1 with c :: r => if is_sp c then r else r1 | [] => r1 end in
       let s1 := closes in
       let s2 := {| fs := {| fk := KQuote; fch := []; fsl := ln; fllb := false |} :: leave_list (ln-1) (fs s1); cur := ONone; csl := 0; cel := 0; cllb := false |} in
-      starts_loop fuel' ln s2 0 true false false true r2
+      starts_loop full fuel' ln s2 0 true false false true r2
     else match (if indented then None else atx body) with
-    | Some (n, c) => add_leaf_node ln (BHead n c) ln closes
+    | Some (n, c) => add_leaf_node ln (BHead n c (HAtx off ind body)) ln closes
     | None =>
     match (if indented then None else fence_open body) with
-    | Some (c, n, info) => let s1 := closes in {| fs := leave_list (ln-1) (fs s1); cur := OFence c n ind info []; csl := ln; cel := ln; cllb := false |}
+    | Some (c, n, info) => let s1 := closes in {| fs := leave_list (ln-1) (fs s1); cur := OFence c n ind info [] off false; csl := ln; cel := ln; cllb := false |}
     | None =>
     match (if (negb indented) && cont_para && negb closed_ then setext body else None), cur s with
-    | Some lvl, OPara rls =>
+    | Some lvl, OPara rls rpos =>
         let content := rstrip (concat (map (fun l => l ++ [10%N]) (rev (List.tl rls))) ++ hd [] rls) in
-        {| fs := push_child (NLeaf (BHead lvl content) (csl s) ln false) (fs s); cur := ONone; csl := 0; cel := 0; cllb := false |}
+        {| fs := push_child (NLeaf (BHead lvl content (HSetext (rev rpos) off ind body)) (csl s) ln false) (fs s); cur := ONone; csl := 0; cel := 0; cllb := false |}
     | _, _ =>
-    if (negb indented) && tbreak body then add_leaf_node ln BBreak ln closes
+    if (negb indented) && tbreak body then add_leaf_node ln (BBreak off ind body) ln closes
     else
     match (if negb indented then list_marker body else None) with
     | Some (ord, d, start, mlen) =>
@@ -260,7 +264,7 @@ Fixpoint starts_loop (fuel:nat) (ln:nat) (s:st) (um:nat) (closed_:bool) (cont_pa
           let same := match top_kind fs1 with KList o' d' _ => Bool.eqb o' ord && N.eqb d' d | _ => false end in
           let fs2 := if same then fs1 else {| fk := KList ord d start; fch := []; fsl := ln; fllb := false |} :: leave_list (ln-1) fs1 in
           let fs3 := {| fk := KItem (ind + pad); fch := []; fsl := ln; fllb := false |} :: fs2 in
-          starts_loop fuel' ln {| fs := fs3; cur := ONone; csl := 0; cel := 0; cllb := false |} 0 true false false true rest'
+          starts_loop full fuel' ln {| fs := fs3; cur := ONone; csl := 0; cel := 0; cllb := false |} 0 true false false true rest'
     | None =>
       if indented && (negb tip_para) && negb blank then
         let s1 := closes in {| fs := leave_list (ln-1) (fs s1); cur := OICode [dropn 4 rest] []; csl := ln; cel := ln; cllb := false |}
@@ -279,19 +283,19 @@ Definition step0 (s:st) (lnline : nat * str) : st :=
   let cont_list := is_list_kind (fk (nth (m-1) ofs {| fk := KDoc; fch := []; fsl := 0; fllb := false |})) && negb allf in
   if allf then
     match cur s with
-    | OFence c n ind info rls =>
-        if fence_close c n rest then close_leaf {| fs := fs s; cur := cur s; csl := csl s; cel := ln; cllb := false |}
-        else {| fs := fs s; cur := OFence c n ind info (dropn (Nat.min ind (lead sp rest)) rest :: rls); csl := csl s; cel := ln; cllb := false |}
+    | OFence c n ind info rls off cl =>
+        if fence_close c n rest then close_leaf {| fs := fs s; cur := OFence c n ind info rls off true; csl := csl s; cel := ln; cllb := false |}
+        else {| fs := fs s; cur := OFence c n ind info (dropn (Nat.min ind (lead sp rest)) rest :: rls) off cl; csl := csl s; cel := ln; cllb := false |}
     | OICode rls pend =>
         if is_blank rest then {| fs := fs s; cur := OICode rls (dropn 4 rest :: pend); csl := csl s; cel := cel s; cllb := cllb s |}
         else if 4 <=? lead sp rest then {| fs := fs s; cur := OICode (dropn 4 rest :: pend ++ rls) []; csl := csl s; cel := ln; cllb := false |}
-        else starts_loop (S (length rest)) ln s 0 false false false false rest
-    | OPara _ =>
-        if is_blank rest then starts_loop (S (length rest)) ln s 0 false false false false rest
-        else starts_loop (S (length rest)) ln s 0 false true false true rest
-    | ONone => starts_loop (S (length rest)) ln s 0 false false (is_list_kind (top_kind (fs s))) true rest
+        else starts_loop (length line) (S (length rest)) ln s 0 false false false false rest
+    | OPara _ _ =>
+        if is_blank rest then starts_loop (length line) (S (length rest)) ln s 0 false false false false rest
+        else starts_loop (length line) (S (length rest)) ln s 0 false true false true rest
+    | ONone => starts_loop (length line) (S (length rest)) ln s 0 false false (is_list_kind (top_kind (fs s))) true rest
     end
-  else starts_loop (S (length rest)) ln s um false false cont_list false rest.
+  else starts_loop (length line) (S (length rest)) ln s um false false cont_list false rest.
 
 
 (* flag pass (cmark 0.29 add_text_to_container): computed from the pre-state and the match result *)
@@ -300,7 +304,7 @@ Definition set_head_child_llb (f:frame) : frame :=
   match fch f with n :: r => {| fk := fk f; fch := set_llb n true :: r; fsl := fsl f; fllb := fllb f |} | [] => f end.
 Fixpoint set_nth_frame (k:nat) (g:frame -> frame) (fs:list frame) : list frame :=
   match k, fs with 0, f :: r => g f :: r | S k', f :: r => f :: set_nth_frame k' g r | _, [] => [] end.
-Definition is_fence (o:open) := match o with OFence _ _ _ _ _ => true | _ => false end.
+Definition is_fence (o:open) := match o with OFence _ _ _ _ _ _ _ => true | _ => false end.
 Definition is_icode (o:open) := match o with OICode _ _ => true | _ => false end.
 Definition is_none (o:open) := match o with ONone => true | _ => false end.
 Definition pre_blank_flags (s:st) (ln:nat) (line:str) : st :=
@@ -420,10 +424,10 @@ Fixpoint first_word (s:str) : str := match s with [] => [] | c::r => if is_sp c 
 Fixpoint sp_nl (s cur:str) : list str := match s with [] => [rev cur] | x::r => if N.eqb x 10 then rev cur :: sp_nl r [] else sp_nl r (x::cur) end.
 Definition html_leaf (tight:bool) (b:block) : str :=
   match b with
-  | BPara ls => if tight then inline_html (join_lines ls) else tag true p_ ++ inline_html (join_lines ls) ++ tag false p_
-  | BHead n c => tag true (h_ n) ++ inline_html c ++ tag false (h_ n)
-  | BBreak => lit [60;104;114;32;47;62]
-  | BCode info ls =>
+  | BPara ls _ => if tight then inline_html (join_lines ls) else tag true p_ ++ inline_html (join_lines ls) ++ tag false p_
+  | BHead n c _ => tag true (h_ n) ++ inline_html c ++ tag false (h_ n)
+  | BBreak _ _ _ => lit [60;104;114;32;47;62]
+  | BCode info ls _ =>
       pre_open ++ (match first_word info with [] => [] | w => lit [32;99;108;97;115;115;61;34;108;97;110;103;117;97;103;101;45] ++ esc w ++ [34%N] end) ++ [62%N]
       ++ flat_map (fun l => esc l ++ nl) ls ++ code_close
   end.
